@@ -25,7 +25,7 @@ use crate::yield_now::{get_co_para, set_co_para, yield_now, yield_with};
 // returns at once (so nothing would be waited for) and raises the Cancel panic
 // from places that already own a wake-up, a permit or a lock hand-off.
 #[inline]
-fn yield_for_kernel() {
+pub(crate) fn yield_for_kernel() {
     if is_coroutine() {
         let cancel = current_cancel_data();
         cancel.disable_cancel();
